@@ -9,8 +9,11 @@ package workflow
 import (
 	"hash/fnv"
 
+	"google.golang.org/protobuf/proto"
+
 	"github.com/luno/workflow/internal/errorcounter"
 	"github.com/luno/workflow/internal/graph"
+	"github.com/luno/workflow/internal/outboxpb"
 )
 
 func VerifShardFilter(shard, totalShards int) EventFilter { return shardFilter(shard, totalShards) }
@@ -48,4 +51,15 @@ func (w *Workflow[Type, Status]) VerifDefaultStartingPoint() Status { return w.d
 
 func VerifValidateTransition[Status StatusType](current, next Status, g *graph.Graph) error {
 	return validateTransition(current, next, g)
+}
+
+// VerifDecodeOutboxData decodes the payload of an outbox entry the way the outbox relay does.
+func VerifDecodeOutboxData(data []byte) (runID string, eventType int32, headers map[string]string, err error) {
+	var r outboxpb.OutboxRecord
+	err = proto.Unmarshal(data, &r)
+	if err != nil {
+		return "", 0, nil, err
+	}
+
+	return r.RunId, r.Type, r.Headers, nil
 }
